@@ -324,6 +324,229 @@ def stage_oracle_quote(rep, rng, strings, lists, n):
     return bad
 
 
+# ----------------------------------------------------------------------------- UuidMap / Solution
+NAME_POOL = ['prog', 'libfoo', 'copy_file_tasks/data.txt', 'sub/dir/tool', 'my project', '\xe9日', 'all', 'test',
+             'a', 'b', 'c', 'key', 'x.y', 'UPPER', 'a&b', '{guid}']
+SLN_PROJECT = re.compile(r'^Project\("\{([0-9A-F-]+)\}"\) = "(.*)", "(.*)", "\{([0-9A-F-]+)\}"$')
+SLN_DEP = re.compile(r'^\t\t\{([0-9A-F-]+)\} = \{([0-9A-F-]+)\}$')
+
+
+def gen_history(rng, rep):
+    pool = rng.sample(NAME_POOL, rng.randint(3, 8))
+    present = set(rng.sample(pool, rng.randint(1, len(pool))))
+    ever = set(present)
+    flags = set()
+    runs = []
+    for i in range(rng.randint(2, 12)):
+        if i > 0:
+            for name in pool:
+                r = rng.random()
+                if name in present and r < 0.2:
+                    present.discard(name); flags.add('remove')
+                elif name not in present and r < 0.3:
+                    flags.add('re-add' if name in ever else 'add')
+                    present.add(name); ever.add(name)
+        order = [nm for nm in pool if nm in present]
+        if rng.random() < 0.4:
+            rng.shuffle(order)
+        specs = []
+        for name in order:
+            key, pname = 'out/' + name, name
+            r = rng.random()
+            if r < 0.04 and specs:
+                pname = specs[-1][1]; flags.add('dup-name')
+            elif r < 0.07 and specs:
+                key = specs[-1][0]; flags.add('dup-key')
+            deps = [k for k, _, _ in specs if rng.random() < 0.3]
+            if rng.random() < 0.3:
+                deps.insert(rng.randint(0, len(deps)), None)
+            if rng.random() < 0.03:
+                deps.append('out/ghost'); flags.add('unknown-dep')
+            specs.append((key, pname, deps))
+        default = rng.choice([None, None] + [k for k, _, _ in specs] + ['out/ghost'])
+        runs.append((specs, default))
+    r = rng.random()
+    if r < 0.6:
+        pre = None
+    elif r < 0.93:
+        names = rng.sample(pool, rng.randint(0, len(pool))) + ['stale'] + ([''] if rng.random() < 0.5 else [])
+        rng.shuffle(names)
+        pre = (rng.choice([0, 1, 1]), [(nm, 10 ** 6 + j) for j, nm in enumerate(names)])
+        flags.add('pre-existing-file')
+    else:
+        pre = (2, [('prog', 10 ** 6)])
+        flags.add('too-new-file')
+    for f in flags:
+        rep.count('hist:' + f)
+    rep.count('hist:runs', len(runs))
+    return pre, runs, flags
+
+
+def parse_sln(text):
+    """-> (solution guid or None, [(name, guid, [dependency guids])]) as ints"""
+    import uuid
+    su, projs, cur = None, [], None
+    for line in text.split('\n'):
+        m = SLN_PROJECT.match(line)
+        if m:
+            su = uuid.UUID(m.group(1)).int
+            cur = (m.group(2), uuid.UUID(m.group(4)).int, [])
+            projs.append(cur)
+            continue
+        m = SLN_DEP.match(line)
+        if m and cur is not None:
+            assert m.group(1) == m.group(2)
+            cur[2].append(uuid.UUID(m.group(1)).int)
+        if line == 'EndProject':
+            cur = None
+    return su, [(n, u, d) for n, u, d in projs]
+
+
+def read_ufile(path):
+    if not os.path.exists(path):
+        return None
+    st = json.load(open(path))
+    return (st['version'], [(k, int(v, 16)) for k, v in st['map'].items()])
+
+
+class _Creator:
+    def __init__(self, out):
+        self.public_output = [out]
+
+
+class _Dep:
+    def __init__(self, creator):
+        self.creator = creator
+
+
+def real_history(d, pre, runs, fresh=None):
+    """Drive the real UuidMap / Solution / NoopProject classes over one history with real files in d.
+    Returns [(outcome, file_after, uuid4_calls_so_far)]."""
+    import types
+    import uuid
+    from unittest import mock
+    from bfg9000.backends.msbuild import solution as solmod, syntax as msyntax
+    from bfg9000.file_types import Phony
+    env = types.SimpleNamespace(getvar=lambda k, dflt=None: dflt, srcdir=None)
+    path = os.path.join(d, '.bfg_uuid')
+    slnpath = os.path.join(d, 'project.sln')
+    if pre is not None:
+        with open(path, 'w') as f:
+            json.dump({'version': pre[0], 'map': {k: uuid.UUID(int=v).hex for k, v in pre[1]}}, f)
+    calls = [0]
+    real_uuid4 = uuid.uuid4
+
+    def fake_uuid4():
+        calls[0] += 1
+        return uuid.UUID(int=fresh[calls[0] - 1]) if fresh is not None else real_uuid4()
+    out = []
+    with mock.patch.object(solmod.uuid, 'uuid4', fake_uuid4):
+        for specs, default in runs:
+            try:
+                uuids = solmod.UuidMap(path)
+                s = solmod.Solution(uuids)
+                for key, name, deps in specs:
+                    dobjs = [_Dep(None if k is None else _Creator(Phony(k))) for k in deps]
+                    proj = msyntax.NoopProject(env, name=name, dependencies=s.dependencies(dobjs))
+                    s[Phony(key)] = proj
+                if default is not None:
+                    s.set_default(Phony(default))
+                with open(slnpath, 'w') as f:
+                    s.write(f)
+                uuids.save()
+                su, projs = parse_sln(open(slnpath).read())
+                if not projs:
+                    su = s.uuid.int
+                res = ('ok', su, projs)
+            except RuntimeError:
+                res = ('RuntimeError',)
+            except ValueError:
+                res = ('ValueError',)
+            out.append((res, read_ufile(path), calls[0]))
+    return out
+
+
+def dec_hist(raw):
+    out = []
+    for o, f, n in raw:
+        if o[0] == 0:
+            res = ('ok', o[1], [(d_str(p[0]), p[1], list(p[2])) for p in o[2]])
+        else:
+            res = ('RuntimeError',) if o[0] == 1 else ('ValueError',)
+        fa = d_opt(lambda vm: (vm[0], [(d_str(kv[0]), kv[1]) for kv in vm[1]]), f)
+        out.append((res, fa, n))
+    return out
+
+
+def check_history_property(runs, results):
+    """The property on what the real code produced. Returns (failure text, classes) or None."""
+    last = {}
+    for i, ((specs, default), (res, fa, _)) in enumerate(zip(runs, results)):
+        if res[0] != 'ok':
+            continue
+        _, su, projs = res
+        names = [p[0] for p in projs]
+        guids = [p[1] for p in projs]
+        dup_names = len(set(names)) != len(names) or '' in names
+        dup_keys = len(set(k for k, _, _ in specs)) != len(specs)
+        if not dup_names and len(set(guids + [su])) != len(guids) + 1:
+            return ('run %d: GUIDs are not unique: %r' % (i, [(n, hex(g)) for n, g, _ in projs]), ('guid-not-unique',))
+        if not dup_keys:
+            for n, g, deps in projs:
+                for dg in deps:
+                    if dg not in guids:
+                        return ('run %d: project %r depends on GUID %x, which is no project of the solution' % (i, n, dg),
+                                ('dangling-dependency',))
+        created = set(nm for _, nm, _ in specs)       # also projects replaced under a duplicate key were looked up
+        if fa is None or set(k for k, _ in fa[1]) != created | {''}:
+            return ('run %d: .bfg_uuid holds %r, projects are %r' % (i, fa, sorted(created)), ('uuid-file-keys',))
+        cur = {}
+        for n, g, _ in projs:
+            if cur.setdefault(n, g) != g:
+                return ('run %d: project name %r has two GUIDs in one solution' % (i, n), ('guid-not-unique',))
+            if n in last and last[n] != g:
+                return ('run %d: GUID of %r changed from %x to %x although the project existed in the previous '
+                        'successful run' % (i, n, last[n], g), ('guid-not-stable',))
+        last = cur
+    return None
+
+
+def stage_uuid(rep, rng, n_hist):
+    d0 = common.scratch('c20uuid')
+    calls, impl, hists = [], [], []
+    bad = 0
+    try:
+        for h in range(n_hist):
+            pre, runs, flags = gen_history(rng, rep)
+            patched = h % 4 != 3          # every fourth history runs with the real uuid4 (no model comparison)
+            fresh = rng.sample(range(1, 10 ** 6), 200) if patched else None
+            d = os.path.join(d0, 'h%d' % h)
+            os.makedirs(d)
+            results = real_history(d, pre, runs, fresh)
+            shutil.rmtree(d, ignore_errors=True)
+            rep.case('hist:' + repr((pre, runs)), bool(flags & {'remove', 're-add'}))
+            for res, _, _ in results:
+                rep.count('run:' + res[0])
+            if patched:
+                calls.append(('uuid.hist', [fresh, None if pre is None else [[pre[0], [[k, v] for k, v in pre[1]]]],
+                                            [[[[k, nm, [None if x is None else [x] for x in deps]] for k, nm, deps in specs],
+                                              None if default is None else [default]] for specs, default in runs]]))
+                impl.append(results)
+            fail = check_history_property(runs, results)
+            if fail:
+                bad += 1
+                rep.fail('MSBuild solution history violates the property: ' + fail[0],
+                         {'history': {'pre': pre, 'runs': runs, 'fresh': fresh}, 'results': results}, classes=fail[1])
+            if h < 2:
+                rep.sample({'stage': 'uuid', 'pre': pre, 'runs': runs[:2], 'results': results[:2]})
+    finally:
+        shutil.rmtree(d0, ignore_errors=True)
+    rep.traces += len(calls)
+    dis = common.compare_model(rep, 'W:uuid_history', calls, impl, lambda name, raw: dec_hist(raw), vm_limit=20)
+    rep.stage('oracle:uuid_history', histories=n_hist, failures=bad)
+    return dis, bad
+
+
 def run(rep):
     rng = random.Random(rep.seed)
     thorough = rep.tier == 'thorough'
@@ -343,11 +566,37 @@ def run(rep):
             call[0], len(dis), call[1], iv, mv),
             {'obligation': 'W:' + call[0], 'call': call, 'impl': iv, 'model': mv, 'n_disagreements': len(dis)},
             found_input=False)
+    nh = 400 if thorough else 60
+    udis, ubad = stage_uuid(rep, rng, nh)
+    if udis and not ubad:
+        _, ubad = stage_uuid(rep, rng, nh * 10)       # search with a 10x budget for a failing history
+        if not ubad:
+            i, call, iv, mv = udis[0]
+            k = [j for j, (a, b) in enumerate(zip(iv, mv)) if a != b]
+            rep.fail('W:uuid.hist - model and implementation disagree (%d histories), first at run %r: impl %r, model %r' % (
+                len(udis), k[:1], [iv[j] for j in k[:1]], [mv[j] for j in k[:1]]),
+                {'obligation': 'W:uuid.hist', 'call': call, 'impl': iv, 'model': mv}, found_input=False)
 
 
 def replay(rep, path):
     r = json.load(open(path))
     print(json.dumps(r, indent=1)[:2000])
+    if 'history' in r:
+        h = r['history']
+        pre = None if h['pre'] is None else (h['pre'][0], [tuple(x) for x in h['pre'][1]])
+        runs = [([tuple(s) for s in specs], default) for specs, default in h['runs']]
+        d = common.scratch('c20replay')
+        try:
+            results = real_history(d, pre, runs, h.get('fresh'))
+        finally:
+            shutil.rmtree(d, ignore_errors=True)
+        fail = check_history_property(runs, results)
+        if fail:
+            rep.fail('MSBuild solution history violates the property: ' + fail[0],
+                     {'history': h, 'results': results}, classes=fail[1])
+        else:
+            print('replayed history no longer fails')
+        return
     if 'args' in r and 'written' in r:
         from bfg9000.shell import windows as wshell
         args = r['args']
